@@ -3,7 +3,10 @@ import os, random, re, itertools
 from vlib import *
 from l2common import *
 
-THEOREMS = []
+THEOREMS = ["short_attached_eq_separate", "short_bundle", "long_eq_eq_separate", "long_prefix_args", "short_eq_long_flag",
+            "short_eq_long_arg", "dashdash_ends_options", "third_operand_rejected", "unknown_short_rejected",
+            "unknown_or_ambiguous_long_rejected", "missing_argument_rejected", "non_numeric_rejected", "table_wf",
+            "real_table_short_eq_long_flag"]
 
 
 def read_table():
